@@ -244,9 +244,46 @@ def run(ctx):
         ctx.ob('C01-LEX.only-the-last-component-may-be-non-strict', cm, k, not bad,
                '' if not bad else 'the lexicographic expansion of a tuple comparison uses %s: with a non-strict operator before the last component a tuple that is smaller in a '
                'later component still compares greater-or-equal, e.g. (1, 1) >= (1, 2)' % '; '.join(bad[:3]), node=k, expected='strict operator for every component but the last')
+    # ---------------------------------------------------------------- NOTIN
+    # `x not in <subquery>`: SQL's NOT IN is never true once the subquery yields a NULL, Python's `not in` simply ignores None.  construct_sql_ast adds
+    # IS NOT NULL conditions for every selected expression that can be NULL.  The only expressions excused from the `nullable` test are monads whose
+    # columns are the primary key of their own table reference (getsql() built from make_join(pk_only=True)): a class excused by isinstance() must
+    # have that getsql, and so must every class that inherits from it.
+    STN = 'pony.orm.sqltranslation'
+    csa = repo.fn(STN, 'SQLTranslator.construct_sql_ast')
+    blocks = [st for st in walk_no_nested(csa.node) if isinstance(st, ast.If) and norm(st.test) == 'is_not_null_checks']
+    ctx.need(blocks, 'C01-NOTIN: the is_not_null_checks block of construct_sql_ast was not found')
+    excused = []
+    for st in ast.walk(blocks[0]):
+        if isinstance(st, ast.If):
+            for c in ast.walk(st.test):
+                if isinstance(c, ast.Call) and dotted(c.func) == 'isinstance' and len(c.args) == 2:
+                    body_adds = any(isinstance(x, ast.Constant) and x.value == 'IS_NOT_NULL' for b in st.body for x in ast.walk(b))
+                    if not body_adds:
+                        names = [dotted(e) for e in (c.args[1].elts if isinstance(c.args[1], ast.Tuple) else [c.args[1]])]
+                        excused += [(n_, st) for n_ in names]
+    nn = 0
+    for cname, st in excused:
+        k = repo.cls(STN, cname)
+        for sub in repo.subclasses(k):
+            if not any(b.name == 'Monad' for b in repo.mro(sub)): continue            # a mixin alone is never instantiated
+            nn += 1
+            gs = repo.lookup(sub, 'getsql')
+            pk_only = gs is not None and any(isinstance(c, ast.Call) and isinstance(c.func, ast.Attribute) and c.func.attr == 'make_join'
+                                            and any(kw.arg == 'pk_only' and isinstance(kw.value, ast.Constant) and kw.value.value is True for kw in c.keywords) for c in calls_in(gs.node))
+            other_cols = gs is not None and any(isinstance(x, ast.Attribute) and x.attr == 'columns' for x in ast.walk(gs.node))
+            ok = pk_only and not other_cols
+            ctx.ob('C01-NOTIN.only-primary-key-expressions-are-excused-from-the-null-guard', csa, '%s <- %s' % (cname, sub.name), ok,
+                   '' if ok else 'NOT IN (subquery) skips the IS NOT NULL guard for %s (through isinstance(monad, %s)), whose getsql() is %s: a nullable column (an optional reference) '
+                   'puts NULL into the subquery and `x not in ...` returns no rows at all' % (sub.name, cname, gs.full if gs is not None else 'missing'), node=st)
+    ctx.floor('C01-NOTIN', nn, 1, 'monad classes excused from the NOT IN null guard')
+    # and the guard itself: under "nullable", IS NOT NULL conditions are added
+    adds = [x for x in ast.walk(blocks[0]) if isinstance(x, ast.Constant) and x.value == 'IS_NOT_NULL']
+    ctx.ob('C01-NOTIN.null-guard-present', csa, blocks[0], bool(adds), '' if adds else 'construct_sql_ast no longer adds IS NOT NULL conditions for NOT IN subqueries', node=blocks[0])
 
 
 MUTANTS = [
+    dict(id='C01-notin', file='pony/orm/sqltranslation.py', fn='SQLTranslator.construct_sql_ast', old="                if isinstance(monad, ObjectIterMonad): pass", new="                if isinstance(monad, (ObjectIterMonad, AttrMonad)): pass", expect='C01-NOTIN'),
     dict(id='C01-lx1', file='pony/orm/sqltranslation.py', fn='CmpMonad.getsql', old="clause.append([ cmp_ops[op if i == size - 1 else strict_op], left_sql[i], right_sql[i] ])", new="clause.append([ cmp_ops[op], left_sql[i], right_sql[i] ])", expect='C01-LEX'),
     dict(id='C01-m1', file='pony/orm/sqltranslation.py', fn='NumericMixin.negate', old="result_sql = [ 'NOT', [ 'COALESCE', sql, [ 'VALUE', False ] ] ]", new="result_sql = [ 'NOT', [ 'COALESCE', sql, [ 'VALUE', True ] ] ]", expect='C01-NULLTRUTH'),
     dict(id='C01-m2', file='pony/orm/sqltranslation.py', fn='StringMixin.negate', old="                    result_sql = [ 'OR', result_sql, [ 'IS_NULL', sql ] ]\n                else:\n                    result_sql = [ 'EQ', [ 'COALESCE', sql, [ 'VALUE', '' ] ], [ 'VALUE', '' ]]",
